@@ -446,6 +446,13 @@ def t5_ext_dispatch(fname):
     src = strip_comments(read("src/tls_extensions.rs"))
     body = fn_body(src, fname, "src/tls_extensions.rs")
     pre = nows(body.split("match ext_type")[0])
+    # the GREASE condition may have been moved into a helper `fn <name>(x: u16) -> bool { <expr> }`: inline it
+    mh = re.search(r"if(\w+)\(ext_type\)\{returnOk\(\(i,TlsExtension::Grease", pre)
+    if mh:
+        mp = re.search(r"fn\s+%s\s*\(\s*(\w+)\s*:\s*u16\s*\)\s*->\s*bool" % re.escape(mh.group(1)), src)
+        if not mp: raise Untranslatable("%s: GREASE helper %s has an unexpected signature" % (fname, mh.group(1)))
+        expr = re.sub(r"\b%s\b" % re.escape(mp.group(1)), "ext_type", fn_body(src, mh.group(1), "src/tls_extensions.rs"))
+        pre = pre.replace("if%s(ext_type){" % mh.group(1), "if%s{" % nows(expr), 1)
     m = re.fullmatch(re.escape(EXT_PRE).replace("MASK", "(0x[0-9a-fA-F_]+|[0-9_]+)").replace("VALSAME", "(0x[0-9a-fA-F_]+|[0-9_]+)(" + re.escape(EXT_SAME) + ")?"), pre)
     if not m: raise Untranslatable("%s prologue changed: %r" % (fname, pre))
     mask, val, same = eval_int(m.group(1), fname), eval_int(m.group(2), fname), bool(m.group(3))
